@@ -1,13 +1,13 @@
 SPECIFICATION Spec
 CONSTANTS
-  Class = "stream"
+  Class = "streamns"
   Ideal = FALSE
   KSet = {"n", "orph"}
-  NW <- W11
-  NR <- W11
+  NW <- W02
+  NR <- W20
   NC <- W11
   WMax = 3
   CMax = 2
-INVARIANTS TypeOK Fifo NoSpuriousError NoLoss RestAll ClosedStopsWrites
+INVARIANTS TypeOK Fifo NoSpuriousError NoLoss RestAll
 PROPERTIES ClosedForGood
 CHECK_DEADLOCK FALSE
